@@ -37,6 +37,8 @@ pub struct Profile {
     pub views: bool,
     pub reif_p: f64,
     pub max_space: f64,
+    /// probability that a 0-1 variable is created with `new_literal_for_predicate`
+    pub litdef_p: f64,
 }
 
 pub const ALL_KINDS: [&str; 22] = [
@@ -70,6 +72,7 @@ impl Profile {
                 ("conjunction", 1),
                 ("bool_lin_le", 1),
                 ("bool_lin_eq", 1),
+                ("predicate_clause", 3),
             ],
             nint: (2, 5),
             nbool: (1, 2),
@@ -80,6 +83,7 @@ impl Profile {
             views: true,
             reif_p: 0.3,
             max_space: 60_000.0,
+            litdef_p: 0.12,
         }
     }
     pub fn only(kinds: &[&'static str]) -> Profile {
@@ -142,6 +146,19 @@ pub fn gen_vars(r: &mut SmallRng, p: &Profile) -> Model {
     shuffle(r, &mut m.vars);
     if !m.vars.iter().any(|v| v.kind != VarKind::Bool) {
         m.vars.push(Var { dom: vec![0, 1, 2], kind: VarKind::Interval });
+    }
+    // literals defined by a predicate over an earlier integer variable
+    for i in 0..m.vars.len() {
+        if m.vars[i].kind == VarKind::Bool && r.gen_bool(p.litdef_p) {
+            let earlier: Vec<usize> = (0..i).filter(|&j| m.vars[j].kind != VarKind::Bool).collect();
+            if earlier.is_empty() {
+                continue;
+            }
+            let var = earlier[r.gen_range(0..earlier.len())];
+            let d = &m.vars[var];
+            let v = r.gen_range(d.lo()..=d.hi());
+            m.cons.push((Con::LitDef(i, MPred { var, k: [PK::Ge, PK::Le, PK::Eq, PK::Ne][r.gen_range(0..4)], v }), Reif::Plain));
+        }
     }
     m
 }
@@ -242,6 +259,19 @@ pub fn gen_con(r: &mut SmallRng, m: &Model, k: &str, views: bool) -> Option<Con>
             }
             Con::Clause(gen_lits(r, &bools, (1, 3)))
         }
+        "predicate_clause" => {
+            let n = r.gen_range(1..=3);
+            Con::PClause(
+                (0..n)
+                    .map(|_| {
+                        let var = r.gen_range(0..m.vars.len());
+                        let d = &m.vars[var];
+                        let v = if r.gen_range(0..6) == 0 { r.gen_range(d.lo() - 1..=d.hi() + 1) } else { r.gen_range(d.lo()..=d.hi()) };
+                        MPred { var, k: [PK::Eq, PK::Eq, PK::Ne, PK::Ge, PK::Le][r.gen_range(0..5)], v }
+                    })
+                    .collect(),
+            )
+        }
         "conjunction" => {
             if bools.is_empty() {
                 return None;
@@ -281,6 +311,9 @@ pub fn pick_kind<'a>(r: &mut SmallRng, kinds: &'a [(&'static str, u32)]) -> &'a 
 }
 
 pub fn gen_reif(r: &mut SmallRng, m: &Model, c: &Con, reif_p: f64) -> Reif {
+    if matches!(c, Con::PClause(..) | Con::LitDef(..)) {
+        return Reif::Plain;
+    }
     let bools: Vec<usize> = (0..m.vars.len()).filter(|&i| m.vars[i].kind == VarKind::Bool).collect();
     if bools.is_empty() || !r.gen_bool(reif_p) {
         return Reif::Plain;
@@ -303,7 +336,7 @@ pub fn gen_model(r: &mut SmallRng, p: &Profile) -> Model {
         if m.space() > p.max_space {
             continue;
         }
-        let nc = r.gen_range(p.ncons.0..=p.ncons.1);
+        let nc = m.cons.len() + r.gen_range(p.ncons.0..=p.ncons.1);
         let mut tries = 0;
         while m.cons.len() < nc && tries < 50 {
             tries += 1;
@@ -312,7 +345,7 @@ pub fn gen_model(r: &mut SmallRng, p: &Profile) -> Model {
             let reif = gen_reif(r, &m, &c, p.reif_p);
             m.cons.push((c, reif));
         }
-        if !m.cons.is_empty() {
+        if m.cons.iter().any(|c| !matches!(c.0, Con::LitDef(..))) {
             return m;
         }
     }
@@ -357,6 +390,9 @@ pub fn classes(m: &Model) -> Vec<String> {
         }
         let vars: Vec<usize> = con.views().iter().map(|v| v.var).collect();
         let repeated = (0..vars.len()).any(|i| (i + 1..vars.len()).any(|j| vars[i] == vars[j]));
+        if repeated {
+            let _ = c.insert("repeated_var".to_string());
+        }
         match con {
             Con::Elem(..) => {
                 if repeated {
@@ -431,6 +467,7 @@ pub fn gen_c08(r: &mut SmallRng, extended: bool) -> Model {
         p.width = 5;
         p.lo = if extended { (-2, 2) } else { (0, 3) };
         p.sparse_p = 0.25;
+        p.litdef_p = 0.0;
         let mut m = gen_vars(r, &p);
         if m.space() > 30_000.0 {
             continue;
